@@ -121,7 +121,7 @@ class FinalJudge:
             step = len(items) / float(self.max_shapes)
             items = [items[int(i * step)] for i in range(self.max_shapes)]
         _JOB = (self, ex, items)
-        n = min(8, os.cpu_count() or 2, max(1, len(items) // 3))
+        n = min(8, os.cpu_count() or 2, max(1, len(items) // 3), int(os.environ.get("SDPVERIF_JOBS") or 64))
         if mp.current_process().daemon or n <= 1:
             results = [_work(i) for i in range(len(items))]
         else:
